@@ -293,6 +293,44 @@ example (c : Cfg) (r : Rec) : encodeRecord c r = encodeRecord c r := rfl
 
 /-! ### fact obligations (Tie B) -/
 
+/-! translated `switch` statements (Tie B, semantic form) -/
+
+theorem C10_fact_classes_found : Facts.gen_str_class_found = true ∧ Facts.gen_map_class_found = true := by decide
+
+/-- the header class the code selects for a value of `n` bytes (translated from the `switch` in `encodeRecord`) is the one
+`encStr` uses: fixstr below 16, str16 below 65536, str32 from there -/
+theorem C10_gen_str_class (v : Bytes) :
+    (Facts.gen_str_class v.length = 0 ∧ encStr v = (160 + v.length) :: v) ∨
+    (Facts.gen_str_class v.length = 1 ∧ encStr v = 218 :: be16 v.length ++ v) ∨
+    (Facts.gen_str_class v.length = 2 ∧ encStr v = 219 :: be32 v.length ++ v) := by
+  unfold Facts.gen_str_class encStr
+  by_cases h1 : v.length < 16
+  · left
+    have : decide (((v.length : Nat) : Int) < 16) = true := by simp; omega
+    simp [h1, this]
+  · right
+    have n1 : decide (((v.length : Nat) : Int) < 16) = false := by simp; omega
+    by_cases h2 : v.length < 65536
+    · left
+      have : decide (((v.length : Nat) : Int) < 65536) = true := by simp; omega
+      simp [h1, h2, n1, this]
+    · right
+      have : decide (((v.length : Nat) : Int) < 65536) = false := by simp; omega
+      simp [h1, h2, n1, this]
+
+/-- the map header reserved for a schema of `nf` fields is `mapHdrByCap (nf + 1)` -/
+theorem C10_gen_map_class (nf n : Nat) :
+    (Facts.gen_map_class nf = 0 ∧ mapHdrByCap (nf + 1) n = [128 + n]) ∨
+    (Facts.gen_map_class nf = 1 ∧ mapHdrByCap (nf + 1) n = 222 :: be16 n) := by
+  unfold Facts.gen_map_class mapHdrByCap
+  by_cases h : nf + 1 < 16
+  · left
+    have : decide ((((nf : Nat) : Int) + 1) < 16) = true := by simp; omega
+    simp [h, this]
+  · right
+    have : decide ((((nf : Nat) : Int) + 1) < 16) = false := by simp; omega
+    simp [h, this]
+
 theorem C10_fact_str_classes : Facts.ser_str_thresholds = [16, 65536] := by decide
 theorem C10_fact_map_threshold : Facts.ser_map_fix_below = some 16 := by decide
 theorem C10_fact_rewrite_threshold : Facts.ser_rewrite_len16_below = some 65536 := by decide
